@@ -893,14 +893,16 @@ impl Handler<ConfigAsyncCmd> for ConfigActor {
                             op_time: now_millis_i64(),
                             op_user,
                         };
-                        Self::send_raft_request(&raft, req).await.ok();
+                        Self::send_raft_request(&raft, req).await?;
+                    } else {
+                        return Err(anyhow::anyhow!("config history sequence is unavailable"));
                     }
                 }
                 ConfigAsyncCmd::Delete(key) => {
                     let req = ClientRequest::ConfigRemove {
                         key: key.build_key(),
                     };
-                    Self::send_raft_request(&raft, req).await.ok();
+                    Self::send_raft_request(&raft, req).await?;
                 }
             }
             Ok(ConfigResult::NULL)
